@@ -37,8 +37,17 @@ def status_sites(fi):
                 out.append((n.attr, n))
             elif isinstance(p, ast.Compare):
                 continue
-            else:
+            elif (isinstance(p, ast.Dict) and any(n is k for k in p.keys)) or (isinstance(p, ast.Subscript) and n is p.slice) or (isinstance(p, (ast.Tuple, ast.Set, ast.List)) and isinstance(getattr(p, "_parent", None), ast.Compare)):
+                continue        # looked up / compared with, not produced
+            elif isinstance(p, ast.IfExp) and (n is p.body or n is p.orelse) and isinstance(getattr(p, "_parent", None), (ast.Assign, ast.keyword, ast.Return)):
                 out.append((n.attr, n))
+            else:
+                # an entry of a table / an argument of a helper: under which condition this status becomes the result is
+                # decided where the table is scanned, not by the guards around the display
+                q = p
+                while q is not None and not isinstance(q, ast.stmt):
+                    q = getattr(q, "_parent", None)
+                raise AnalysisError(f"{fi.name}: SolverStatus.{n.attr} at line {n.lineno} is an entry of a table / an argument (`{src(q)[:50] if q is not None else '?'}`), not assigned as the result status where it stands; which condition selects it is not followed")
     return out
 
 
@@ -111,6 +120,7 @@ def _check_minimize(prog, rep, fi, call):
     flagsV = set()
     G = FALSE
     loop_ok = []
+    unflagged = []
     for lp in loops:
         c = lp.target.id
         funcalls = [x for x in ast.walk(lp) if isinstance(x, ast.Call) and isinstance(x.func, ast.Subscript) and isinstance(x.func.value, ast.Name) and x.func.value.id == c and isinstance(x.func.slice, ast.Constant) and x.func.slice.value == "fun"]
@@ -125,6 +135,7 @@ def _check_minimize(prog, rep, fi, call):
                         fl.add(t.id)
         fl = {f for f in fl if any(isinstance(v, ast.Constant) and v.value is False for v in assigns.get(f, []))}
         if not fl:
+            unflagged.append(lp)
             continue
         flagsV |= fl
         gs = dominating_guards(lp)
@@ -137,6 +148,8 @@ def _check_minimize(prog, rep, fi, call):
             if isinstance(x, ast.Assign) and any(isinstance(t, ast.Name) and t.id == f for t in x.targets) and isinstance(x.value, ast.Constant) and x.value.value is True:
                 if not any(any(x is y for y in ast.walk(lp)) for lp, *_ in loop_ok) and not _in_bounds_loop(x, fi, assigns, res):
                     raise AnalysisError(f"{fname}: violation flag {f} is also set outside the feasibility loop (idiom not recognised)")
+    if not loop_ok and unflagged:
+        raise AnalysisError(f"{fname}: the loop at line {unflagged[0].lineno} evaluates the constraint records at the returned point, but its verdict is not kept in a local flag (`flag = False` ... `flag = True`): how it reaches the status ladder is not followed")
     if not loop_ok:
         # no feasibility loop in this function: is the evaluation of the records done in a helper?
         from .common import helper_closure
